@@ -51,7 +51,7 @@ func waitFor(max time.Duration, cond func() bool) bool {
 }
 
 func unitC17(e common.Env, p *common.Part) {
-	p.Rule = "3..5 real endpoints on 127.0.0.1; payload lengths {0,1,31,32,33,255,256,65535,65536,1 MiB, limit-1, limit, limit+1}; type/topic forms (types 1,2 with a 32-byte topic; types 0,3,9 without); 1..8 concurrent sending goroutines per connection; 480 (thorough 3000) fresh peer handles whose first Send is issued by 8 goroutines released together; faults, each in turn: a peer that never listened, a listener closed mid-run, a peer that accepts but never reads, a peer whose port accepts TCP connections but never answers the TLS handshake, a peer that listens but never accepts, an authenticated client writing a truncated frame / an oversize length / garbage; oracle: per (connection, goroutine) sequence equality and multiset equality on ids and SHA-256 of type/topic/payload at the receiver, oversize never delivered, process alive, messages between healthy peers all received; distinct key = (scenario, size, form, senders, fault); non-trivial when >=2 concurrent senders, a boundary size or a fault is involved"
+	p.Rule = "3..5 real endpoints on 127.0.0.1; payload lengths {0,1,31,32,33,255,256,65535,65536,1 MiB, limit-1, limit, limit+1}; type/topic forms (types 1,2 with a 32-byte topic; types 0,3,9 without); 1..8 concurrent sending goroutines per connection; 480 (thorough 3000) fresh peer handles whose first Send is issued by 8 goroutines released together; connections that stay quiet for 0.2 s, 2 s and 31.5 s between two frames; faults, each in turn: a peer that never listened, a listener closed mid-run, a peer that accepts but never reads, a peer whose port accepts TCP connections but never answers the TLS handshake, a peer that listens but never accepts, an authenticated client writing a truncated frame / an oversize length / garbage; oracle: per (connection, goroutine) sequence equality and multiset equality on ids and SHA-256 of type/topic/payload at the receiver, oversize never delivered, process alive, messages between healthy peers all received; distinct key = (scenario, size, form, senders, fault); non-trivial when >=2 concurrent senders, a boundary size or a fault is involved"
 	p.Assumptions = append(p.Assumptions, "the 10 s enqueue stall towards a dead peer is reported, not judged; 'all received' is bounded by message count with a 60 s watchdog; the id of a message rides in its topic (types 1,2) or the payload head")
 	type scen struct {
 		name string
@@ -237,6 +237,41 @@ func unitC17(e common.Env, p *common.Part) {
 		p.Count("fresh_handles_first_used_by_8_goroutines", int64(attempts))
 		return "", ""
 	}})
+	// --- scenario A'': connections that stay quiet for a while between two frames (0.2 s, 2 s, and 31.5 s - beyond the half-minute
+	// that time-outs in this code base use): what is sent after the pause arrives like everything else
+	for _, pause := range []time.Duration{200 * time.Millisecond, 2 * time.Second, 31500 * time.Millisecond} {
+		pause := pause
+		scens = append(scens, scen{fmt.Sprintf("a connection that is quiet for %v between two frames", pause), func() (string, string) {
+			env, err := newNetEnv(ids, doms)
+			if err != nil {
+				return "", ""
+			}
+			defer env.stopAll()
+			env.listen(1, true)
+			cl := env.client(1, "d", honestAuth(env.nodes[3].ident, "d"))
+			d0, t0 := mkPayload(100, 7, 0, 0)
+			cl.Send(1, t0, d0, 1)
+			if !waitFor(10*time.Second, func() bool { return len(env.nodes[1].received()) >= 1 }) {
+				return "missing", "the first frame did not arrive"
+			}
+			time.Sleep(pause)
+			for k := 1; k <= 3; k++ {
+				d, t := mkPayload(100+k, 7, 0, uint32(k))
+				cl.Send(1, t, d, 1)
+			}
+			if !waitFor(15*time.Second, func() bool { return len(env.nodes[1].received()) >= 4 }) {
+				return "missing/after-a-quiet-period", fmt.Sprintf("%d of the 3 frames sent after a pause of %v on an established connection arrived within 15 s", len(env.nodes[1].received())-1, pause)
+			}
+			for i, m := range env.nodes[1].received() {
+				if len(m.Topic) != 32 || binary.BigEndian.Uint32(m.Topic[8:]) != uint32(i) || m.From != 3 {
+					return "modified-or-reordered", "frames around a quiet period out of order or misattributed"
+				}
+			}
+			p.Count("messages_checked", 4)
+			p.Count("quiet_period_scenarios", 1)
+			return "", ""
+		}})
+	}
 	// --- scenario B: a frame announcing more than the limit is refused, and the process survives
 	scens = append(scens, scen{"limit+1 refused", func() (string, string) {
 		env, err := newNetEnv(ids, doms)
